@@ -22,6 +22,8 @@ func (r readWrapper) Read(p []byte) (n int, err error) {
 type bufWriter struct {
 	buf []byte
 	w   io.Writer
+	// written is the number of bytes of completely written chunks.
+	written int64
 }
 
 func (w *bufWriter) Write(p []byte) (n int, err error) {
@@ -32,7 +34,17 @@ func (w *bufWriter) Write(p []byte) (n int, err error) {
 	w.buf = w.buf[:len(p)]
 	copy(w.buf, p)
 
-	return w.w.Write(w.buf)
+	n, err = w.w.Write(w.buf)
+	if err == nil {
+		w.written += int64(n)
+	}
+
+	return n, err
+}
+
+type limitReadCloser struct {
+	io.Reader
+	io.Closer
 }
 
 func (r *Repo) Store(_ context.Context, path string, content io.Reader) (err error) {
@@ -47,8 +59,10 @@ func (r *Repo) Store(_ context.Context, path string, content io.Reader) (err err
 	defer func() {
 		if errors.Is(err, os.ErrNotEnoughSpace) {
 			err = model.NotEnoughSpaceError{
-				Err:    err,
-				Start:  f,
+				Err: err,
+				// A failed write may have stored a part of the last chunk;
+				// that chunk is replayed as a whole from Middle.
+				Start:  limitReadCloser{io.LimitReader(f, w.written), f},
 				Middle: bytes.NewReader(w.buf),
 				End:    content,
 			}
